@@ -435,7 +435,7 @@ func keys(m map[string]bool) []string {
 
 // ---------------------------------------------------------------------------
 
-var hostClasses = []string{"example.com", "example.com", "www.example.com", "sub.example.org", "*.example.com", "single", "", "93.184.216.34", "localhost", "127.0.0.1", "foo.localhost", "10.0.0.5", "192.168.1.9", "a.local", "b.test", "c.example", "d.invalid", "EXAMPLE.com"}
+var hostClasses = []string{"example.com", "example.com", "www.example.com", "sub.example.org", "*.example.com", "single", "", "93.184.216.34", "localhost", "127.0.0.1", "foo.localhost", "10.0.0.5", "192.168.1.9", "a.local", "b.test", "c.example", "d.invalid", "EXAMPLE.com", "www.app.test", "a.b.invalid", "x.y.example", "deep.a.local", "*.app.test", "App.Test"}
 
 func genCase(t *rapid.T) *Case {
 	c := &Case{}
@@ -454,14 +454,14 @@ func genCase(t *rapid.T) *Case {
 		if s.Scheme == "https" && s.Port == "80" || s.Scheme == "http" && s.Port == "443" {
 			s.Port = ""
 		}
-		if s.Scheme == "https" && !model(s).tlsOn {
-			s.Scheme = "" // an https:// address without any TLS: not defined by the statement
-		}
 		if !hostQualifies(s.Host) && (s.TLS == "email" || s.TLS == "no_redirect") {
 			s.TLS = "" // an explicit tls directive without any usable certificate on a host that cannot get one: not defined by the statement
 		}
 		if s.TLS == "manual" && !map[string]bool{"example.com": true, "www.example.com": true, "sub.example.org": true, "localhost": true, "b.test": true}[strings.ToLower(s.Host)] {
 			s.TLS = "" // the manual certificate only covers these names
+		}
+		if s.Scheme == "https" && !model(s).tlsOn {
+			s.Scheme = "" // an https:// address without any TLS: not defined by the statement
 		}
 		if s.Port == "443" && !model(s).tlsOn {
 			s.Port = "8080" // a plaintext site on the HTTPS port: not a case the statement speaks about
